@@ -28,6 +28,10 @@ def make_engine(prop: str, steer: List[str]):
         from .engine_c18 import EngineC18
 
         return EngineC18("C18", steer)
+    if prop == "C16":
+        from .engine_d import EngineD
+
+        return EngineD("C16", steer)
     raise KeyError(prop)
 
 
@@ -47,6 +51,7 @@ NOT_APPLICABLE = {
 }
 
 ENGINES = [
+    {"name": "io-world", "path": "sim/engine_d.py", "serves_properties": ["C16"], "kind_free_text": "export/import histories over a small path namespace on a simulated open() with buffering configurations and injected OSError at the k-th write/flush/seek/close"},
     {"name": "solver-world/presentation", "path": "sim/engine_c18.py", "serves_properties": ["C18"], "kind_free_text": "paired runs of every decomposition algorithm in the simulated world (seed, verbosity, clock, interpreter, call history, representation, scale, relabelling)"},
     {"name": "solver-world/gcp", "path": "sim/engine_c13.py", "serves_properties": ["C13"], "kind_free_text": "GCP samplers under seed search; histories of solves (incl. aborted ones) on one optimizer object with recording/faulting sampler proxy, simulated clock, differential vs. fresh optimizer"},
     {"name": "tensor-history", "path": "sim/engine_a.py", "serves_properties": ["C04", "C19"], "kind_free_text": "seeded read/write histories on a dense+sparse pair vs. a reference model; malformed requests as faults"},
@@ -161,5 +166,29 @@ CHECKS = {
             "simulated": ["time module of pyttb.cp_apr / pyttb.gcp.optimizers / pyttb.gcp_opt (SimClock)", "np.random seeded per run", "ARPACK start vector (eigsh/eigs v0)", "stdout / logging sinks", "interpreter hash seed (fresh-process variant)"],
         },
         "assumptions": ["comparison on the denoted dense tensor, not on factor matrices (sign/permutation ambiguity)", "pairs with a near-degenerate spectrum at a truncation are skipped"],
+    },
+    "C16": {
+        "manifest": {
+            "engine": "io-world",
+            "design_ref": "DESIGN.md section 3, engine D",
+            "level_text": "Seeded search over histories of exports, imports and foreign writes on three paths (so files are overwritten by other types, shorter and longer contents, pre-existing longer files) with export_data/import_data running unmodified on a simulated open(): a duck-typed file over a real descriptor whose Python-level calls (write/flush/tell/seek/readline/close) are events, under per-run buffering configurations (line-buffered, 16, 64, 4096, default). 40% of the runs inject OSError(ENOSPC|EIO) at the k-th write/flush/seek/close; an export that raises makes the path indeterminate until the next successful export, an export that returns must round-trip bit for bit. Oracle: type, shape, exact bit patterns of values/weights/factors, subscripts and their order, 1-based subscripts in the file text (independent reader), index_base honoured for foreign files.",
+            "level_note": "Trusted: the harness' reference copy of each object and its 30-line text reader; the kernel file system under the scratch directory. numpy's C-level writes cannot be faulted individually (faults are injected at the Python calls that bracket them). float64 values only.",
+            "technique": "deterministic simulation: simulated open() seam with call-level fault injection, history over a path namespace vs. a dict reference model",
+        },
+        "level": "exploration",
+        "quick": {"runs": 6000, "wall": 200},
+        "thorough": {"runs": 250000, "wall": 1200},
+        "chunk": 25,
+        "rule": (
+            "one case = one history of 4-16 export/import/foreign-write steps over 3 paths under one buffering configuration "
+            "(40% of the runs with OSError injection at a call position); non-trivial = at least 2 round trips compared "
+            "bit for bit; distinct = distinct digest of (configuration, steps, observations)."
+        ),
+        "state_measure": "hash of (object kind, order, buffering, set of file-call kinds seen during the export)",
+        "components": {
+            "real": REAL_ALL + ["numpy C-level tofile/fromfile", "kernel file system under the scratch directory"],
+            "simulated": ["open() as seen by pyttb.export_data and pyttb.import_data (SimFS/SimFile)", "OSError injection at write/flush/seek/close", "buffering configuration", "pre-existing file contents"],
+        },
+        "assumptions": ["float64 values (the default format is specified for doubles)"],
     },
 }
